@@ -16,10 +16,11 @@
 (*         type), a typedef in X's file, a typedef in a file in between    *)
 (*   f     the file of X (the user's file or one it includes directly)     *)
 (*   k     struct / union / exception / enum;  pres: `@preserve` comment   *)
-(* For every finished program the invariant Emit evaluates every argument  *)
+(* For every finished program the action Evaluate evaluates every argument *)
 (* set of ArgMenu (method patterns, preserve on / off, comment switch,     *)
-(* preserved-struct list, the same through trim_config.yaml), checks       *)
-(* B => A for it (flag bok) and prints the program with its cases.         *)
+(* preserved-struct list, the same through trim_config.yaml): layer B's    *)
+(* result, B => A (flag bok), satisfiability of A (flag asat); the         *)
+(* invariant Emit prints the program with its cases.                        *)
 (***************************************************************************)
 EXTENDS TrimImpl, Json
 
@@ -36,7 +37,10 @@ Topo(n) == CASE n = "one"   -> << <<>> >>
              [] n = "dia"   -> << <<2, 3>>, <<3>>, <<>> >>
              [] n = "dia4"  -> << <<2, 3>>, <<4>>, <<4>>, <<>> >>
 
-Fn(name, grp) == [name |-> name, g |-> grp, a |-> <<>>, r |-> <<>>, t |-> <<>>]
+Fn(name, grp) == [name |-> name, g |-> grp, pre |-> "", a |-> <<>>, r |-> <<>>, t |-> <<>>]
+FnX(name, grp, pre) == [Fn(name, grp) EXCEPT !.pre = pre]
+M1X == <<Fn("m1", "m"), FnX("m1x", "m", "m1")>>      \* a name that extends another name
+P1X == <<Fn("p1", "p"), FnX("p1x", "p", "p1")>>
 Def(k, f, ty) == [k |-> k, f |-> f, ty |-> ty, cv |-> <<>>, pres |-> "n", ext |-> 0, fns |-> <<>>]
 Svc(f, ext, fns) == [Def("service", f, <<>>) EXCEPT !.ext = ext, !.fns = fns]
 M12 == <<Fn("m1", "m"), Fn("m2", "m")>>
@@ -54,6 +58,8 @@ Layouts(inc) ==
           e \in {e \in ({1} \cup d1) \X (1..Len(inc)) : e[2] = e[1] \/ e[2] \in Range(inc[e[1]])}}
   \cup {[name |-> "SSB", svcs |-> <<Svc(1, 3, M12), Svc(1, 3, <<Fn("q1", "q")>>), Svc(fb, 0, P12)>>] : fb \in {1} \cup d1}
   \cup {[name |-> "inc", svcs |-> <<Svc(fb, 0, M12)>>] : fb \in d1}
+  \cup {[name |-> "Sx", svcs |-> <<Svc(1, 0, M1X)>>]}
+  \cup {[name |-> "SBx", svcs |-> <<Svc(1, 2, M1X), Svc(fb, 0, P1X)>>] : fb \in {1} \cup d1}
 
 \* fillers: one letter per included file
 FillDefs(inc, fl, base) ==
@@ -292,6 +298,8 @@ cQuick == <<
   U({"two"}, {"SB", "SS", "SBB", "SSB", "BS", "inc"}, {"n", "r"}, 1, <<{"fn1", "loose2"}>>, "all"),
   \* default values that refer to constants of included files
   U({"two", "dia"}, {"S"}, {"c", "n"}, 1, <<{"dflt"}>>, "few"),
+  \* function names that extend other names (anchoring of the patterns)
+  U({"two"}, {"SBx"}, {"n"}, 1, <<{"fn1"}>>, "all"),
   \* two slots: parent / child chains across files
   U({"chain"}, {"S"}, {"n"}, 2, <<{"parents"}, {"childs", "loose2"}>>, "few") >>
 
@@ -301,12 +309,15 @@ cThorough == <<
   \* every service layout x every argument set x fillers
   U({"two", "chain", "dia"}, AllLays, {"n", "e", "r"}, 1, <<{"fn1", "loose2"}>>, "all"),
   U({"fork", "dia4"}, {"SB", "SBB", "inc"}, {"n", "c", "t"}, 1, <<{"fn1"}>>, "all"),
+  \* function names that extend other names (anchoring of the patterns)
+  U({"two"}, {"Sx", "SBx"}, {"n"}, 1, <<{"fns"}>>, "all"),
   U({"two", "chain", "fork", "dia"}, {"S", "SB"}, {"c", "n", "e"}, 1, <<{"dflt"}>>, "all"),
   \* two slots: chains of uses across files
   U({"two", "chain", "dia"}, {"S", "SB"}, {"n"}, 2, <<{"parents"}, {"child", "loose2"}>>, "few"),
   \* three slots
   U({"chain", "dia"}, {"S"}, {"n"}, 3, <<{"parents"}, {"childs"}, {"childs", "loose2"}>>, "few") >>
 
-\* design-level sanity of layer A itself: keeping everything the code keeps on a filter-free run of a program
-\* without unreferenced struct-likes is allowed (A is satisfiable); checked through bok statistics in the check
+\* Design-level results exported with every case: bok (layer B's result is Allowed by layer A -- the refinement
+\* B => A; a FALSE is a candidate defect that counts only when the real code shows it too) and asat (layer A allows
+\* the minimal result Ideal: the property is satisfiable for this case; a FALSE is an inconsistency of the spec).
 =============================================================================
